@@ -32,6 +32,10 @@ def templates():
         ("d1 eq {d}", "Date"), ("d1 in ({d}, 2001-01-01)", "Date"), ("year(d1) eq 2020 and d1 gt {d}", "Date"),
         ("dt1 ge {dt}", "DateTime"), ("(dt1 ge {dt}) ne true", "DateTime"),
         ("s1 eq {g}", "GUID"), ("s1 in ({g}, {g})", "GUID"),
+        # a literal as the DIRECT argument of a function (a dialect-level rendering of the function must keep it a parameter)
+        ("f1 eq floor({f})", "Float"), ("f1 lt ceiling({f})", "Float"), ("round({f}) le f1", "Float"), ("i1 eq length({s})", "String"),
+        ("s1 eq tolower({s})", "String"), ("s1 eq toupper({s}) or s2 eq trim({s})", "String"), ("s1 eq substring({s}, 1)", "String"),
+        ("i1 eq year({d})", "Date"), ("i1 eq month({dt}) or i1 eq hour({dt})", "DateTime"), ("f1 gt floor({i})", "Integer"), ("i1 add length({s}) gt {i}", "String"),
     ]
 
 HOLE = {"String": "{s}", "Integer": "{i}", "Float": "{f}", "Date": "{d}", "DateTime": "{dt}", "GUID": "{g}"}
